@@ -30,6 +30,7 @@ pub fn run_c14(ctx: &Ctx) -> i32 {
         HB::AltMem,
         HB::OvUpper,
         HB::OvLower,
+        HB::Ov3Lower,
         HB::Embedded,
     ];
     for b in backends {
@@ -56,7 +57,7 @@ pub fn run_c14(ctx: &Ctx) -> i32 {
             vio.extend(v);
         }
     }
-    let wbackends = [HB::Mem, HB::Phys, HB::AltMem, HB::OvUpper, HB::OvLower];
+    let wbackends = [HB::Mem, HB::Phys, HB::AltMem, HB::OvUpper, HB::OvLower, HB::Ov3Lower];
     for b in wbackends {
         let depth = if thorough && !b.is_phys() {
             5
@@ -67,7 +68,7 @@ pub fn run_c14(ctx: &Ctx) -> i32 {
         };
         for prior in [None, Some(&b""[..]), Some(&b"abc"[..])] {
             for append in [false, true] {
-                if b == HB::OvLower && prior.is_none() {
+                if matches!(b, HB::OvLower | HB::Ov3Lower) && prior.is_none() {
                     continue;
                 }
                 let (st, v) = writer_scripts("C14", b, prior, append, depth);
@@ -142,6 +143,7 @@ pub fn run_c04(ctx: &Ctx) -> i32 {
         HB::OvUpper,
         HB::OvLower,
         HB::OvPhysLower,
+        HB::Ov3Lower,
     ];
     for b in wbackends {
         let depth = if b.is_phys() {
@@ -153,7 +155,7 @@ pub fn run_c04(ctx: &Ctx) -> i32 {
         };
         for prior in [None, Some(&b""[..]), Some(&b"abc"[..])] {
             for append in [false, true] {
-                if matches!(b, HB::OvLower | HB::OvPhysLower) && prior.is_none() {
+                if matches!(b, HB::OvLower | HB::OvPhysLower | HB::Ov3Lower) && prior.is_none() {
                     continue;
                 }
                 let (st, v) = writer_scripts("C04", b, prior, append, depth);
@@ -248,6 +250,7 @@ pub fn run_c04(ctx: &Ctx) -> i32 {
         HB::OvUpper,
         HB::OvLower,
         HB::OvPhysLower,
+        HB::Ov3Lower,
     ];
     let (cases, evals, v3) = lengths_and_buffers("C04", &lb, &lens, &bufs);
     println!(
